@@ -286,7 +286,7 @@ func loadProgram(cfg *Config) (*ssa.Program, map[string]bool, error) {
 		Mode:       packages.LoadAllSyntax,
 		Dir:        cfg.ModuleDir,
 		Overlay:    overlay,
-		Env:        append(os.Environ(), "GOFLAGS=-mod=mod", "GOPROXY=off", "GOSUMDB=off", "GOTOOLCHAIN=local"),
+		Env:        goEnv(),
 		BuildFlags: []string{"-tags=" + strings.Join(cfg.BuildTags, ",")},
 	}
 	pkgs, err := packages.Load(pcfg, cfg.Package)
@@ -655,4 +655,13 @@ func diffReplay(prog *ssa.Program, cfg *Config, funcByName map[string]*ssa.Funct
 		}
 	}
 	fmt.Println("no divergence in recorded values")
+}
+
+// goEnv: the go command environment; an existing GOFLAGS (e.g. with -modfile, so /repo's go.mod is never rewritten) is kept.
+func goEnv() []string {
+	env := os.Environ()
+	if os.Getenv("GOFLAGS") == "" {
+		env = append(env, "GOFLAGS=-mod=mod")
+	}
+	return append(env, "GOPROXY=off", "GOSUMDB=off", "GOTOOLCHAIN=local")
 }
